@@ -14,7 +14,7 @@
    outcome [Ok]; whether the call succeeds is not part of them (see C19_K1_refuted). *)
 From Coq Require Import NArith List Arith.
 From GV Require Import Base.Result Model.Optimize Spec.HeapIso Proofs.C19.Base Proofs.C19.StoreLemmas
-  Proofs.C19.CloneData Proofs.C19.OptimizeProof Proofs.C19.Reader Proofs.C19.Closure Proofs.C19.Examples.
+  Proofs.C19.CloneStack Proofs.C19.CloneData Proofs.C19.OptimizeProof Proofs.C19.Reader Proofs.C19.Closure Proofs.C19.Examples.
 Import ListNotations.
 
 (* clone_data: the result reads as the argument did, and the original is intact: no cell below the
@@ -65,6 +65,16 @@ Theorem C19_worklist_closed : forall s from s1 start, create_index_stack s from 
   closed_upto (cells s1) start (length (cells s1)).
 Proof. exact create_index_stack_closed. Qed.
 Print Assumptions C19_worklist_closed.
+
+(* children first: while position [i] of the index list is rewritten, an address queued at a later
+   position already has its CloneMap cell, so its lookup succeeds (with C19_worklist_closed: the
+   lookups of a cell's own kids cannot fail with NoMappedIndexFoundDuringClone) *)
+Theorem C19_children_first : forall h0 c0 o ret ds sI i s k q,
+  Inv h0 c0 o ret ds sI (S i) s -> i < q -> q < c0 -> c0 <= dsize s ->
+  nth_error h0 q = Some (CCloneItem k) ->
+  exists k', lookup s (ds + S i) (ds + c0) k = Ok k'.
+Proof. exact lookup_of_later_item_succeeds. Qed.
+Print Assumptions C19_children_first.
 
 (* non-vacuity: concrete stores meet the hypotheses, the calls succeed and move things *)
 Example C19_ex_optimize : exists s', optimize ex_store [2; 10] = Ok (s', [3; 0]) /\
